@@ -19,7 +19,7 @@ import (
 func init() {
 	harness.Register(&harness.Property{
 		ID: "C11", Level: "exploration",
-		Rule:             "cases = grammar-based adversarial argument lists for all 23 functions (0..12 items: empty, 00.., 8- and 9-byte integers, 2^64-1, the residues n with 3n+c small mod 2^64, token ids truncated/extended so that id‖nonce aliases another live key, 31/32/33-byte addresses, system-account and metachain addresses, role names) on worlds evolved by random-walk prefixes; every gas class, call type and reachable account-presence pattern on the sender side; destination legs only for protocol-generated messages and refunds; directed count-residue and aliasing cases. Oracles: recovered panic / child death, result shape, heap bytes allocated during the call vs 128 KiB + 128 x (argument bytes + 64 per storage read) (runtime.ReadMemStats around the call, single-threaded child under RLIMIT_AS). Non-trivial = the call passes the first argument checks (reaches a dependency); distinct = (function, side, #args, outcome class, first error)",
+		Rule:             "cases = grammar-based adversarial argument lists for all 23 functions (0..12 items: empty, 00.., 8- and 9-byte integers, 2^64-1, the residues n with 3n+c small mod 2^64, token ids truncated/extended so that id‖nonce aliases another live key, 31/32/33-byte addresses, system-account and metachain addresses, role names) on worlds evolved by random-walk prefixes; every gas class, call type and reachable account-presence pattern on the sender side; destination legs only for protocol-generated messages and refunds; directed count-residue and aliasing cases. Oracles: recovered panic / child death, result shape, heap bytes allocated during the call vs 128 KiB + 128 x (argument bytes + 64 per storage read) (runtime.ReadMemStats around the call, single-threaded child under RLIMIT_AS). Non-trivial = the call passes the first argument checks (reaches a dependency); distinct = (function, side, #args, outcome class, first error) + hostile environments: every base call under a refusing / failing payability oracle x gas {0,1,40,ample} x 4 call types, every emitted message delivered starved {0,1,40} x {plain, flagged refund}; two different (id, nonce) pairs aliasing one key at the destination.",
 		Assumptions:      append([]string{"T8: inputs a transaction cannot produce are not explored (nil CallValue, hand-crafted destination-leg messages)"}, commonAssumptions...),
 		Batches:          tierN(8, 32),
 		DeathIsViolation: true,
@@ -29,7 +29,7 @@ func init() {
 	})
 	harness.Register(&harness.Property{
 		ID: "C13", Level: "exploration", RaceInThorough: true,
-		Rule:        "cases = every leg of seeded random walks (all 23 functions, adversarial calls included) and of the scenario library, executed three times on equal states: on the walk's own container, on a reused twin container in another goroutine after an unrelated call on the same function objects, and on a freshly built container; oracle: byte-identical Canonical(VMOutput) ‖ error presence ‖ Canonical(world); input deep-compared after every call (arguments laid out in one backing array with sentinel-filled spare capacity); hidden-state hook: every []byte field of the function objects keeps content, length, capacity and spare backing memory. Thorough also runs under the race detector. Non-trivial = committed leg; distinct = (function, side, outcome) and world digests",
+		Rule:        "cases = every leg of seeded random walks (all 23 functions, adversarial calls included) and of the scenario library, executed three times on equal states: on the walk's own container, on a reused twin container in another goroutine after an unrelated call on the same function objects, and on a freshly built container; oracle: byte-identical Canonical(VMOutput) ‖ error presence ‖ Canonical(world); input deep-compared after every call (arguments laid out in one backing array with sentinel-filled spare capacity); hidden-state hook: every []byte field of the function objects keeps content, length, capacity and spare backing memory. Thorough also runs under the race detector. Non-trivial = committed leg; distinct = (function, side, outcome) and world digests + the directed transfer matrix (padded numbers, contract senders) under the input comparison; configuration path \"schedule change while the gated functions are inactive\".",
 		Assumptions: commonAssumptions,
 		Batches:     tierN(8, 16),
 		Floors:      map[string]int64{"C13/replayed-legs": 5000, "C13/committed-replayed:*": 1500, "C13/prefix-fields-observed": 10, "C13/configuration-path-checks": 150},
@@ -75,7 +75,7 @@ func runC11(c *harness.Ctx) {
 	r := c.Rand("c11")
 	walks := c.Scale(200, 1500)
 	for i := 0; i < walks; i++ {
-		w := NewWalk(r.Fork(uint64(i)), R, WalkOpts{Steps: c.Scale(150, 300), Hostile: 75, OnLeg: onLeg}, "C11")
+		w := NewWalk(r.Fork(uint64(i)), R, WalkOpts{Steps: c.Scale(150, 300), Hostile: 75, OnLeg: onLeg, FlipPayable: i%2 == 1, PadNumbers: i%4 == 3}, "C11")
 		w.U.N.MeasureAlloc = true
 		w.Run()
 		R.Eval(w.U.N.Seq())
@@ -150,6 +150,101 @@ func runC11(c *harness.Ctx) {
 				}
 				R.Eval(s.U.N.Seq())
 			}
+		}
+	}
+	// directed: hostile ENVIRONMENTS - every base call under a payability oracle that refuses or
+	// fails for every destination, with too little gas, under every call type; and every message
+	// it emits delivered with too little gas and as a flagged refund
+	{
+		probe := NewScn(c.Rand("c11e"), harness.NewReporter("x"), ScnOpts{Shards: 2})
+		nBase := len(baseCalls(probe))
+		gases := []uint64{0, 1, 40, gen.BigGas}
+		i := 0
+		for bi := 0; bi < nBase; bi++ {
+			for _, ans := range []int{world.PayNo, world.PayErr} {
+				for gi, gas := range gases {
+					i++
+					if !mine(c, i) {
+						continue
+					}
+					for _, ct := range []vmcommon.CallType{vmcommon.DirectCall, vmcommon.AsynchronousCall, vmcommon.AsynchronousCallBack, vmcommon.ESDTTransferAndExecute} {
+						s := NewScn(c.Rand("c11e").Fork(uint64(i)), R, ScnOpts{Shards: 2, Enabled: []string{"C11"}})
+						s.U.SetRoles(s.A, s.F1, RoleAddQty, RoleNFTBurn, RoleAddURI, RoleUpdAttr, RoleCreate)
+						for _, d := range [][]byte{s.Same, s.Other, s.KSame, s.KOther, s.A} {
+							s.U.W.Payable[string(d)] = ans
+						}
+						call := baseCalls(s)[bi]
+						call.CallType = ct
+						if !isSys(call.Caller) {
+							call.Gas = gas
+						}
+						var l *node.Leg
+						if isSys(call.Caller) && (call.Func == FPause || call.Func == FUnPause) {
+							l = s.U.N.ExecAt(0, call)
+						} else {
+							l = s.U.N.Exec(call)
+						}
+						onLeg(s.U, s.M, l)
+						if gi == len(gases)-1 {
+							// the emitted messages, starved and flagged
+							for _, m := range append([]*node.Message{}, s.U.N.Pool...) {
+								for _, g := range []uint64{0, 1, 40} {
+									for _, flag := range []bool{false, true} {
+										m2 := *m
+										m2.Gas, m2.RetAfterErr = g, flag
+										if dl := s.U.N.DeliverMsg(&m2); dl != nil {
+											onLeg(s.U, s.M, dl)
+										}
+										R.Cover("C11/directed-starved-deliveries")
+									}
+								}
+							}
+						}
+						drain(s.U.N)
+						R.Cover("C11/directed-hostile-environment-cases")
+						R.Eval(s.U.N.Seq())
+					}
+				}
+			}
+		}
+	}
+	// directed: two DIFFERENT (identifier, nonce) pairs that concatenate to the same storage key,
+	// one held by the destination, the other arriving
+	if mine(c, 5) {
+		for v := 0; v < 16; v++ {
+			S := uint32(1 + v%2)
+			s := NewScn(c.Rand("c11k").Fork(uint64(v)), R, ScnOpts{Shards: S, Enabled: []string{"C11"}})
+			dst := s.Same
+			if v%2 == 1 {
+				dst = s.Other
+			}
+			s.U.W.Account(s.A).Poke([]byte(node.NoncePrefix+string(s.SFT)), gen.U64(257))
+			s.U.Create(s.A, s.SFT, 7, "n258", "h258", "", 1, "u")
+			s.U.N.Exec(gen.NFTTransferCall(s.A, dst, s.SFT, 258, big.NewInt(7), gen.BigGas))
+			drain(s.U.N)
+			x1 := append(append([]byte{}, s.SFT...), 1)
+			s.U.SetRoles(s.A, x1, RoleCreate, RoleAddQty)
+			s.U.W.Account(s.A).Poke([]byte(node.NoncePrefix+string(x1)), gen.U64(1))
+			hash := "h258"
+			if (v/2)%2 == 1 {
+				hash = "other"
+			}
+			s.U.Create(s.A, x1, 3, "x1", hash, "", 1, "u")
+			var call node.Call
+			if (v/4)%2 == 0 {
+				call = gen.NFTTransferCall(s.A, dst, x1, 2, big.NewInt(1), gen.BigGas)
+			} else {
+				call = gen.MultiCall(s.A, dst, []gen.Item{{ID: s.F1, Nonce: 0, Qty: big.NewInt(1)}, {ID: x1, Nonce: 2, Qty: big.NewInt(1)}}, gen.BigGas)
+			}
+			if v/8 == 1 {
+				call.Args = append(call.Args, []byte("fn"))
+			}
+			onLeg(s.U, s.M, s.U.N.Exec(call))
+			for _, dl := range drain(s.U.N) {
+				onLeg(s.U, s.M, dl)
+			}
+			R.Cover("C11/directed-destination-alias-cases")
+			R.Eval(s.U.N.Seq())
 		}
 	}
 	if mine(c, 3) {
@@ -360,13 +455,22 @@ func runC13(c *harness.Ctx) {
 			}
 			R.DistinctS("C13", l.Call.Func, sideName(l), fmt.Sprint(l.OK))
 		}
-		w := NewWalk(r.Fork(uint64(i)), R, WalkOpts{Steps: c.Scale(90, 150), Hostile: 20, OnLeg: onLeg, RecordPayable: true, Reconfigure: true}, "C13")
+		w := NewWalk(r.Fork(uint64(i)), R, WalkOpts{Steps: c.Scale(90, 150), Hostile: 20, OnLeg: onLeg, RecordPayable: true, Reconfigure: true, PadNumbers: i%2 == 1}, "C13")
 		w.Run()
 		R.Eval(w.U.N.Seq() * 3)
 		R.Distinct(w.U.W.Digest())
 		if i == 0 {
 			sample(c, map[string]interface{}{"walk_tail": w.M.History[len(w.M.History)-5:], "executions_per_leg": 3})
 		}
+	}
+	// the directed transfer matrix (call types, contract senders, attached calls, numbers with
+	// leading zero bytes): the input must come back untouched from every leg
+	if !c.Race {
+		transferMatrix(c, []string{"C13"}, func(s *Scn, l *node.Leg, tag string) {
+			if l != nil && l.Input != nil {
+				R.Cover("C13/matrix-legs-input-compared")
+			}
+		})
 	}
 	// the scenario library, with schedule changes and epoch notifications as configuration
 	for si, sc := range Scenarios() {
@@ -392,17 +496,20 @@ func runC13(c *harness.Ctx) {
 		// then changed to S' must behave like a container built with S' directly; likewise for
 		// epoch notification histories ending in the same epoch
 		S0 := world.GasMapFrom(gasSchedules[0])
-		for v := 0; v < 3; v++ {
+		for v := 0; v < 4; v++ {
 			S1 := world.CloneGasMap(S0)
 			for sec, m := range S1 {
 				for k := range m {
-					if v == 2 || (v == 0 && sec == vmcommon.BaseOperationCostString) || (v == 1 && sec == vmcommon.BuiltInCostString) {
+					if v >= 2 || (v == 0 && sec == vmcommon.BaseOperationCostString) || (v == 1 && sec == vmcommon.BuiltInCostString) {
 						m[k] = m[k]*3 + 11
 					}
 				}
 			}
-			sa := NewScn(c.Rand("scn").Fork(harness.Hash64(sc.Name)), R, ScnOpts{Shards: sc.Shards, GasMap: S0, Enabled: []string{"C13"}})
-			sa.U.W.ConfirmEpoch(1)
+			// variant 3: the schedule changes while the epoch-gated functions are still inactive
+			sa := NewScn(c.Rand("scn").Fork(harness.Hash64(sc.Name)), R, ScnOpts{Shards: sc.Shards, GasMap: S0, Enabled: []string{"C13"}, LateActivation: v == 3})
+			if v != 3 {
+				sa.U.W.ConfirmEpoch(1)
+			}
 			sa.U.W.GasScheduleChange(S1)
 			sa.U.W.ConfirmEpoch(7)
 			sa.U.W.ConfirmEpoch(5)
